@@ -154,7 +154,7 @@ func genC09(seed uint64, tier string) *plan.Plan {
 			if r.IntN(2) == 0 {
 				d = -d
 			}
-			op.F = []plan.Op{{K: "count", A: d}}
+			op.F = []plan.Op{{K: "count", A: d, B: int64(r.IntN(6))}} // every record, or one of them
 			pl.Ops = append(pl.Ops, op)
 		case 2:
 			op := plan.Op{K: "data", A: 0, B: int64(1 + r.IntN(3)), C: int64(r.Uint64() >> 1), D: 40, S: []string{"", "extra", "v2"}[r.IntN(3)]}
